@@ -802,6 +802,10 @@ def rule_filterimpl(ctx):
             # `if not kwargs: return f(*args)`: with no keyword given there is nothing to filter
             yield ob("C03.FILTERIMPL", f, "util.filter_kwargs:empty-kwargs@%d" % _ordinal(s, c), True, "called without keywords only when none were given (`not %s`)" % f.kwarg, node=c.node)
             continue
+        if not c.kw:
+            # the wrapped function is called with no keyword at all on a path where keywords may have been given
+            yield ob("C03.FILTERIMPL", f, "util.filter_kwargs:drops-keywords@%d" % _ordinal(s, c), False, "the wrapped function is called without any keyword under %s: keywords the caller passed (and the callee accepts) are dropped" % ("; ".join(tm.show(cc, 3) for cc, _ in symeval.pc_conds(c.pc)) or "no condition"), node=c.node)
+            continue
         need(len(kws) == 1 and len(c.kw) == 1, "C03.FILTERIMPL", "unexpected keyword forwarding shape")
         kwt = kws[0]
         by_kind = _filter_by_kind(kwt, kwa, fn_t, s)
@@ -826,7 +830,9 @@ def rule_filterimpl(ctx):
                 # filtered = {}; for k, v in kwargs.items(): if k in names: filtered[k] = v
                 for m in s.by_kind("mutate"):
                     if m.how == "setitem" and m.root is not None:
-                        entries.append((m.key, m.val, [c2 for c2, p in symeval.pc_conds(m.pc) if p and call_name(c2) != "util.has_kwargs"] + [tm.unop("not", c2) for c2, p in symeval.pc_conds(m.pc) if not p and call_name(c2) != "util.has_kwargs"], len(symeval.pc_loops(m.pc)), m.node))
+                        # (what an earlier `if not kwargs: return f(*args)` left behind - kwargs is non-empty - filters nothing)
+                        pcs = [(c2, p) for c2, p in symeval.pc_conds(m.pc) if not (c2 is kwa and p)]
+                        entries.append((m.key, m.val, [c2 for c2, p in pcs if p and call_name(c2) != "util.has_kwargs"] + [tm.unop("not", c2) for c2, p in pcs if not p and call_name(c2) != "util.has_kwargs"], len(symeval.pc_loops(m.pc)), m.node))
             need(entries, "C03.FILTERIMPL", "filtered keyword dict construction not recognised")
             for key, val, conds, nloops, node in entries:
                 # key/value are the two components of one item of kwargs.items()
